@@ -380,6 +380,48 @@ def run(oc, tier, seed, model_available, escalate):
     impl += gi
     import shutil
     shutil.rmtree(gd, ignore_errors=True)
+    # ---- real tools, read-back of a file that GREW after generation (--ignore_size): the partition read back is that of the recorded
+    # size (header tool: the first min(recorded size, --size) bytes in blocks of the message size, the last one short), so an otherwise
+    # untouched file verifies clean in its protected part and nothing is written
+    import ecc_scen as es
+    import ecc_util as eu
+    gd2 = os.path.join(common.scratch(), "c10grow")
+    for it_ in range(10 if tier == "quick" else 150):
+        shutil.rmtree(gd2, ignore_errors=True)
+        P = es.gen_params(rng, tool=rng.choice(["header", "header", "whole"]), small=True, erasures=False)
+        P.mbs = max(P.mbs, 20)
+        P.algo = rng.choice([3, 4])
+        if not P.well_formed():
+            continue
+        k1 = P.k_of_rate(P.r1)
+        P.size = max(P.size, 2 * k1 + 3)
+        # recorded size below --size and not a multiple of the message size (the last protected block is short)
+        s0 = rng.randint(1, P.size - 1)
+        if s0 % k1 == 0:
+            s0 += 1
+        if P.tool == "whole":
+            s0 = rng.choice([s0, P.size + 2 * k1 + 1])
+        content = bytes(rng.randrange(1, 256) for _ in range(s0))
+        root = os.path.join(gd2, "r")
+        eu.write_tree(root, {"f.bin": content})
+        eccp = os.path.join(gd2, "e.txt")
+        if eu.generate(P, root, eccp) != "0" or eu.accidental(open(eccp, "rb").read(), 1):
+            continue
+        grown = content + bytes(rng.randrange(256) for _ in range(rng.choice([1, 7, k1, 3 * k1 + 5])))
+        eu.write_tree(root, {"f.bin": grown})
+        P.ignore_size = True
+        rc, st, out, _txt = eu.correct(P, root, eccp, os.path.join(gd2, "out"))
+        oc.oracle_cases += 1
+        oc.count("read-back of a grown file (--ignore_size), %s tool" % P.tool)
+        # whole-file tool: the last block of the recorded partition is read at full message length from the longer file (documented
+        # behaviour: it then mismatches); only the header tool's partition stops at the recorded size
+        if P.tool == "header" and (rc != "0" or st is None or st[:2] != (1, 0) or out):
+            oc.violations.append({"input": {"params": P.describe(), "recorded_size": s0, "current_size": len(grown), "content": grown.hex()[:4000]},
+                                  "impl": {"exit": rc, "stats": st, "written": sorted(out)},
+                                  "required": {"exit": "0", "stats": "(1 processed, 0 corrupted, ...)", "written": []},
+                                  "what": "a file that only grew after generation (recorded size below --size, last protected block short) is "
+                                          "not read back in the blocks it was generated in: its untouched protected part is reported corrupted"})
+    shutil.rmtree(gd2, ignore_errors=True)
     if model_available:
         model, err = common.run_driver(lines)
         if model is None:
